@@ -60,6 +60,25 @@ def r25_1(ctx, rep):
     ok = False
     if fn is not None:
         kws = [k for c in calls(fn) if is_name(c.func, "E") for k in c.keywords if k.arg in ("name", "builtin")]
+        # the attribute's name chosen together with the tag: E(tag, ..., **{attr: op_name}) with attr one of the two literals
+        spread = []
+        for c in calls(fn):
+            if is_name(c.func, "E"):
+                for k in c.keywords:
+                    if k.arg is None and isinstance(k.value, ast.Dict) and len(k.value.keys) == 1 and isinstance(k.value.keys[0], ast.Name):
+                        kn = k.value.keys[0].id
+                        vals = set()
+                        for s_ in ast.walk(fn):
+                            if isinstance(s_, ast.Assign):
+                                tg, vv = s_.targets[0], s_.value
+                                pairs = list(zip(tg.elts, vv.elts)) if isinstance(tg, ast.Tuple) and isinstance(vv, ast.Tuple) and len(tg.elts) == len(vv.elts) else [(tg, vv)]
+                                for t_, v_ in pairs:
+                                    if is_name(t_, kn):
+                                        vals.add(const_str(v_))
+                        if vals and vals <= {"name", "builtin"}:
+                            spread.append(ast.keyword(arg="name", value=k.value.values[0]))
+        if spread and not kws:
+            kws = spread * 2
         tparam = fn.args.args[1].arg
         def _op_leafs(v):
             return _op_leafs(v.body) + _op_leafs(v.orelse) if isinstance(v, ast.IfExp) else [norm(v)]
